@@ -32,6 +32,7 @@ import ApiFu.C01.Lemmas
 import ApiFu.C01.Typing
 import ApiFu.C01.Acyclic
 import ApiFu.C01.Syntactic
+import ApiFu.C01.Roots
 
 open ApiFu ApiFu.C01
 
@@ -219,11 +220,11 @@ def specSexp : Spec.Result → Sexp
       Sexp.node "req" (o.req.map errSexp), Sexp.ofBool o.undef]
 
 /-- the decidable hypotheses of theorems `exec_correct_total_driver` and `exec_correct_total_validated`
-    (PropsTyping.lean) -/
+    (PropsTyping.lean), and `Schema.rootsCheck` (the `roots` fact of `SchemaRel`, PropsFromC04.lean) -/
 def driverHypotheses (S : Schema) (D : Document) : Bool :=
   decide ((D.nodes.map Selection.pos).Nodup) && D.nodes.all (fun s => decide s.keyOK) &&
     S.closedCheck && D.condsCheck S && D.noSpreadCycle && D.typeCheck S &&
-    D.typed S && S.wfCheck && D.mergeOK S
+    D.typed S && S.wfCheck && D.mergeOK S && S.rootsCheck
 
 def handle (line : String) : String :=
   match Sexp.parse line with
